@@ -384,8 +384,12 @@ func (c *Ctx) prfPlusRules(r *Report, prefix string) {
 		}
 	} else {
 		// offset form: identified above by exactly these two edges; T(0) is empty because the stream starts nil
-		posB = c.InstrPos(offPhi)
-		okB = true
+		if offPhi == nil {
+			posB = "-"
+		} else {
+			posB = c.InstrPos(offPhi)
+			okB = true
+		}
 		for i, e := range streamPhi.Edges {
 			if !li.body[li.header.Preds[i]] && emptySliceValue(e, 0) {
 				initNil = true
